@@ -173,7 +173,21 @@ def gen_string(tape):
     return b"".join(tape.pick(pools, "b") for _ in range(n))
 
 
+RUNS = [0]
+INTERNED = []
+
+
+def _interned():
+    from pdfminer import pdfdocument, pdfpage, psparser
+
+    out = [(psparser.KEYWORD_ARRAY_BEGIN, lambda: psparser.KWD(b"[")), (psparser.KEYWORD_DICT_END, lambda: psparser.KWD(b">>")), (psparser.KEYWORD_PROC_BEGIN, lambda: psparser.KWD(b"{"))]
+    out += [(pdfpage.LITERAL_PAGE, lambda: psparser.LIT("Page")), (pdfdocument.LITERAL_CATALOG, lambda: psparser.LIT("Catalog"))]
+    return out
+
+
 def run(tape, ctx, item=None):
+    if not INTERNED:
+        INTERNED.extend(_interned())
     kmax = TIERS[ctx.tier]["kmax"]
     if item is not None:
         data = bytes.fromhex(item["data"])
@@ -192,6 +206,9 @@ def run(tape, ctx, item=None):
         ctx.probe("very long token")
     else:
         data = gen_string(tape)
+        if tape.coin(3, 100, "magic"):
+            # byte sequences that other formats give a meaning to at the start of a file are bytes like any others here
+            data = tape.pick([b"\xef\xbb\xbf", b"\xff\xfe", b"\xfe\xff", b"\x00\x00\xfe\xff", b"%PDF-1.7\n", b"\x1f\x8b", b"#!"], "magic.bytes") + data
         sizes = [0] + list(range(1, kmax + 1))
     devs, toks = check_string(data, sizes, ctx)
     if item is None and tape.coin(8, 100, "strict"):
@@ -216,6 +233,12 @@ def run(tape, ctx, item=None):
         ctx.probe("refill inside number")
     if toks and toks[-1][0] + 1 >= len(data) - 8:
         ctx.probe("eof flush produced token")
+    # names and keywords are interned: the symbols the library created at import are still the ones a lookup gives
+    for sym, fresh in INTERNED:
+        if fresh() is not sym:
+            devs.append(Dev("C14:interning-lost", "%r is no longer the object the library created at import (after %d tokenised strings in this process)" % (sym, RUNS[0])))
+            break
+    RUNS[0] += 1
     tape.note(toks)
     sample = {"data": repr(data), "sizes": "default+1..%d" % (len(sizes) - 1), "tokens": repr(toks)[:300]}
     return Outcome(devs, scen=data.hex(), nontrivial=bool(toks) and len(data) >= 2, sample=sample, item={"data": data.hex()})
